@@ -13,6 +13,7 @@ from props import tagstore as TS
 
 ID = "C07"
 LEVEL = "model_checking"
+ISOLATE_SHARDS = True        # every shard runs in a forked child of a pristine worker (mc/core.py)
 RULE = ("closed store graph of config tiny (a[2], s, b[1]@0x401/1/1; 2 values per element); from every state every list of "
         "1..N members over the member alphabet, run bundled and unbundled. non-trivial = distinct (state, list) with >= 2 "
         "members containing a write or a refused member")
@@ -231,3 +232,9 @@ def replay(case):
         check_list(rig, state, detuple(lst))          # the lists run earlier on the same simulator (hidden state, if any)
     bad, _, _ = check_list(rig, state, detuple(case["list"]))
     return [m for k, m in bad]
+
+
+def preload():
+    """import the code under test once in the (pristine) worker; shard children are forked from it"""
+    from mc import sim as _sim
+    _sim.mods()
